@@ -218,10 +218,41 @@ class E(Tr):
 class Stm:
     """statements, state passing"""
 
-    def __init__(self, t, monadic):
+    def __init__(self, t, monadic, ctx=None):
         self.t, self.monadic = t, monadic
         self.x = E(t, monadic)
         self.opts = getattr(t, "opts", {})
+        self.ctx = ctx if ctx is not None else {"aux": [], "n": 0, "args": set()}
+
+    def child(self, monadic):
+        return Stm(self.t, monadic, self.ctx)
+
+    def binders(self):
+        return " ".join(f"({p})" for _, p in self.t.params)
+
+    def param_names(self):
+        return " ".join(p.split(":")[0].strip() for _, p in self.t.params)
+
+    def captured(self, nodes, scope, exclude):
+        """local variables (not function arguments) of the enclosing function that a lifted loop body reads"""
+        used = []
+        for nd in nodes:
+            for y in ast.walk(nd):
+                if isinstance(y, ast.Name) and y.id in scope and y.id not in self.ctx["args"] and y.id not in exclude \
+                        and y.id not in used:
+                    used.append(y.id)
+                if isinstance(y, ast.Attribute) and (self.x.base_name(y.value), y.attr) in self.opts.get("attr_vars", {}):
+                    v = self.opts["attr_vars"][(y.value.id, y.attr)][0]
+                    if v in scope and v not in exclude and v not in used and v not in self.ctx["args"]:
+                        used.append(v)
+        return [self.x.local(v) for v in used]
+
+    def lift(self, kind, caps, text):
+        """emit an auxiliary definition (lambda lifting of a loop body / condition); returns the applied name"""
+        name = f"{self.t.name}.{kind}"
+        capb = " ".join(f"({c} : _)" for c in caps)
+        self.ctx["aux"].append(f"def {name} {self.binders()} {capb} :=\n{text}\n")
+        return f"({name} {self.param_names()} {' '.join(caps)})".replace("  ", " ").replace(" )", ")")
 
     # which names does a statement list assign (in order of first assignment)
     def assigned(self, stmts):
@@ -370,7 +401,7 @@ class Stm:
                 return f"{pad}if {test} then\n{then}\n{pad}else\n{els}"
             ab, ao = self.assigned(body), self.assigned(orelse)
             vars_ = [v for v in ab + [w for w in ao if w not in ab] if v in scope or (v in ab and v in ao)]
-            pure = Stm(self.t, False)
+            pure = self.child(False)
             pure.x.monadic = self.monadic
             then = pure.seq(body, scope, lambda: self.tup(vars_), ind + 2)
             els = pure.seq(orelse, scope, lambda: self.tup(vars_), ind + 2)
@@ -388,29 +419,38 @@ class Stm:
             if not vars_:
                 raise Unsupported("loop without effect")
             tnames = {y.id for y in ast.walk(s.target) if isinstance(y, ast.Name)}
-            pure = Stm(self.t, False)
-            body = pure.seq(list(s.body), scope | tnames, lambda: self.tup(vars_), ind + 2)
+            self.ctx["n"] += 1
+            k = self.ctx["n"]
+            pure = self.child(False)
+            body = pure.seq(list(s.body), scope | tnames, lambda: self.tup(vars_), 2)
             if pure.x.uses_bind:
                 raise Unsupported("partial operation inside a for loop")
             st = self.tup(vars_)
-            line = f"{pad}let {st} := ({x.e(s.iter)}).foldl (fun {st} {x.pattern(s.target)} =>\n{body}) {st}\n"
+            caps = self.captured(list(s.body), scope, set(vars_) | tnames)
+            f = self.lift(f"for{k}", caps, f"  fun {st} {x.pattern(s.target)} =>\n{body}")
+            line = f"{pad}let {st} := ({x.e(s.iter)}).foldl {f} {st}\n"
             return line + self.seq(rest, scope, tail, ind, fn_tail)
         if isinstance(s, ast.While) and not s.orelse:
             vars_ = [v for v in self.assigned(s.body) if v in scope]
             st = self.tup(vars_)
+            self.ctx["n"] += 1
+            k = self.ctx["n"]
+            caps = self.captured(list(s.body) + [s.test], scope, set(vars_))
             if not self.monadic:
-                pure = Stm(self.t, False)
-                body = pure.seq(list(s.body), scope, lambda: st, ind + 2)
+                pure = self.child(False)
+                body = pure.seq(list(s.body), scope, lambda: st, 2)
                 cond = pure.x.truth(s.test)
                 if pure.x.uses_bind:
                     raise Unsupported("partial operation inside a pure while loop")
+                w = self.lift(f"while{k}", caps, f"  CR.PyC20.mkLoop (fun {st} => {cond}) (fun {st} =>\n{body})")
                 restt = self.seq(rest, scope, tail, ind + 1, fn_tail)
-                return (f"{pad}match CR.PyC20.whileLoop (fun {st} => {cond}) (fun {st} =>\n{body}) fuel {st} with\n"
-                        f"{pad}| none => none\n{pad}| some {st} =>\n{restt}")
-            m = Stm(self.t, True)
-            body = m.seq(list(s.body), scope, lambda: st, ind + 2)
+                return f"{pad}Option.bind (CR.PyC20.whileLoop {w}.1 {w}.2 fuel {st}) (fun {st} =>\n{restt})"
+            m = self.child(True)
+            body = m.seq(list(s.body), scope, lambda: st, 2)
             cond = m.x.truth(s.test)
-            line = f"{pad}let {st} ← CR.PyC20.whileM (fun {st} => do return {cond}) (fun {st} => do\n{body}) fuel {st}\n"
+            w = self.lift(f"while{k}", caps, f"  CR.PyC20.mkLoopM (fun {st} => do return {cond}) (fun {st} => do\n{body})")
+            x.uses_bind = True
+            line = f"{pad}let {st} ← CR.PyC20.whileM {w}.1 {w}.2 fuel {st}\n"
             return line + self.seq(rest, scope, tail, ind, fn_tail)
         raise Unsupported(f"statement {type(s).__name__}")
 
@@ -445,14 +485,16 @@ class FT(Target):
         fn = find_func(tree, self.cls, self.func, self.setter)
         st = Stm(self, self.monadic)
         scope = {a.arg for a in fn.args.args} | self.scope
+        st.ctx["args"] = set(scope)
         body = st.seq(list(fn.body), scope, None, 1, fn_tail=True)
+        aux = "".join(a + "\n" for a in st.ctx["aux"])
         binders = " ".join(f"({p})" for _, p in self.params)
         doc = f"/-- {self.file}: Lanelet.{self.func}{(' — ' + self.doc) if self.doc else ''} -/\n"
         if self.monadic:
-            return doc + f"def {self.name} {binders} : Res ({self.ret}) := do\n{body}\n"
+            return aux + doc + f"def {self.name} {binders} : Res ({self.ret}) := do\n{body}\n"
         if st.x.uses_bind:
             raise Unsupported("partial operation in a pure target")
-        return doc + f"def {self.name} {binders} : {self.ret} :=\n{body}\n"
+        return aux + doc + f"def {self.name} {binders} : {self.ret} :=\n{body}\n"
 
 
 class WritersTable:
